@@ -113,9 +113,9 @@ func (f *Field) getArg(name string) (av *ArgValue) {
 	return
 }
 
-func (f *Field) sortArgs() (errors []error) {
+func (f *Field) sortArgs(t Type) (errors []error) {
 	if 0 < len(f.Args) {
-		if ot, _ := f.ConType.(*Object); ot != nil {
+		if ot, _ := t.(*Object); ot != nil {
 			if fd := ot.fields.get(f.Name); fd != nil {
 				for _, av := range f.Args {
 					if fd.getArg(av.Arg) == nil {
